@@ -224,7 +224,12 @@ impl Run {
         coverage.insert("exhaustive".into(), json!(g.caps.is_empty()));
         coverage.insert("bounds".into(), J::Object(g.bounds.clone()));
         coverage.insert("caps_hit".into(), json!(g.caps));
-        coverage.insert("counters".into(), json!(g.counters));
+        let mut counters = g.counters.clone();
+        let slow = crate::watch::SLOWEST_US.load(Ordering::Relaxed);
+        if slow > 0 {
+            counters.insert("slowest_watched_case_ms".into(), slow / 1000);
+        }
+        coverage.insert("counters".into(), json!(counters));
         let kf: Vec<J> = g
             .known_fired
             .iter()
